@@ -983,6 +983,12 @@ class Facts:
 
         def base(p):
             return re.sub(r"#\d+$", "", p)
+        try:
+            with open(kp) as fh:
+                allk = json.load(fh)
+            self._specialise_flag_helpers(known, allk)
+        except Exception as e:           # the specialisation is an optional convenience: never let it take the analysis down
+            self.normalise_notes = getattr(self, "normalise_notes", []) + ["flag specialisation skipped: %r" % (e,)]
         new_from = self._hoist_into_conversions(known)
         keep_body = set()
         for p, f in list(self.fns.items()):
@@ -1096,6 +1102,171 @@ class Facts:
                 g = scalarise_struct_locals(self, f, set(known_adts.get(f.crate, {})))
                 if g is not f:
                     self.fns[p] = g
+
+    # ---- two functions merged behind a mode flag: split again
+    def _flag_value(self, f, op, depth=6):
+        """('B', 0|1) / ('E', adt, variant) when the operand is a compile-time constant flag, else None."""
+        for _ in range(depth):
+            if op["k"] == "const":
+                return ("B", int(op["v"])) if op.get("ty") == "bool" and "v" in op else None
+            if op["k"] not in ("copy", "move") or op["p"]:
+                return None
+            sd = f.single_def(op["l"])
+            if not sd or sd[1] == "term" or sd[2]["k"] != "assign":
+                return None
+            rv = sd[2]["rv"]
+            if rv["k"] == "use":
+                op = rv["op"]
+            elif rv["k"] == "agg" and rv.get("adt") and not rv.get("ops") and self._is_flag_enum(rv["adt"]):
+                return ("E", rv["adt"], rv["variant"])
+            else:
+                return None
+        return None
+
+    def _is_flag_enum(self, ty):
+        a = self.adts.get(ty)
+        return bool(a) and a.get("kind") in ("Enum", "enum") and len(a["variants"]) >= 2 and all(not v["fields"] for v in a["variants"])
+
+    def _specialise_flag_helpers(self, known, allk):
+        """`fn dispatch(cmd, mode: Mode)` that replaced `fn send(cmd)` and `fn force_send(cmd)`: when an unknown private helper takes
+        a bool / field-less private enum and every call site passes a constant, one copy per constant is made (flag parameter
+        removed, the flag's tests folded, dead arms cut off -- also inside the helper's closures that captured the flag), the call
+        sites are redirected, and a copy whose signature and callee set match a function of the confirmed tree that is gone gets
+        that function's name back. Copies that match nothing stay helpers and are inlined by the absorption step below."""
+        def base(p):
+            return re.sub(r"#\d+$", "", p)
+        sigs = {c: v for c, v in allk.items() if not c.startswith("__")}
+        finger = allk.get("__callees__") or {}
+        for p, h in list(self.fns.items()):
+            if h.crate not in known or h.kind == "Closure" or base(p) in known[h.crate] or p.startswith("<") or h.j.get("exported") \
+                    or h.j.get("coroutine"):
+                continue
+            flags = [i for i in range(1, h.arg_count + 1) if h.locals[i] == "bool" or self._is_flag_enum(h.locals[i])]
+            if not flags:
+                continue
+            sites = [(q, f, bi) for q, f in self.fns.items() for bi, blk in enumerate(f.blocks)
+                     if blk["term"]["k"] == "call" and blk["term"]["callee"] == p and len(blk["term"]["args"]) == h.arg_count]
+            refs = any(o.get("fn") == p for f in self.fns.values() for blk in f.blocks for st in blk["stmts"] if st["k"] == "assign"
+                       for o in _operands_of_rv(st["rv"]) if o["k"] == "const") or \
+                any(a.get("fn") == p for f in self.fns.values() for blk in f.blocks if blk["term"]["k"] == "call" for a in blk["term"]["args"] if a["k"] == "const")
+            if len(sites) < 2 or refs or any(q == p or q.startswith(p + "::{closure") for q, _, _ in sites):
+                continue
+            for i in flags:
+                vals = [self._flag_value(f, f.term(bi)["args"][i - 1]) for _, f, bi in sites]
+                if any(v is None for v in vals) or len(set(vals)) < 2:
+                    continue
+                if len(fn_defs_whole(h, i)) != 0:
+                    continue
+                self._split_on_flag(p, h, i, sites, vals, known, sigs, finger)
+                break
+
+    def _split_on_flag(self, p, h, i, sites, vals, known, sigs, finger):
+        closures = {q: g for q, g in self.fns.items() if q.startswith(p + "::{closure")}
+        made = {}
+        for v in sorted(set(vals)):
+            label = ("true" if v[1] else "false") if v[0] == "B" else v[2]
+            np_ = "%s$%s" % (p, label)
+            # --- the function body: flag parameter -> a local holding the constant
+            j = json.loads(json.dumps(h.j).replace(json.dumps(p + "::{closure")[1:-1], json.dumps(np_ + "::{closure")[1:-1]))
+            n = len(j["locals"])
+
+            def f(l, i=i, n=n):
+                return l if l < i else (n - 1 if l == i else l - 1)
+            j["blocks"] = _remap_locals(j["blocks"], f)
+            j["names"] = [x for x in _remap_locals(j.get("names", []), f)]
+            ty = j["locals"].pop(i)
+            j["locals"].append(ty)
+            j["arg_count"] = h.arg_count - 1
+            if "inputs" in j and len(j["inputs"]) >= i:
+                j["inputs"] = j["inputs"][:i - 1] + j["inputs"][i:]
+            j["path"] = np_
+            flag_local = n - 1
+            rv = {"k": "use", "op": {"k": "const", "ty": "bool", "repr": "true" if v[1] else "false", "v": v[1]}} if v[0] == "B" else \
+                {"k": "agg", "adt": v[1], "adt_full": v[1], "variant": v[2], "fields": [], "ops": []}
+            j["blocks"][0]["stmts"].insert(0, {"k": "assign", "lhs": {"l": flag_local, "p": []}, "rv": rv, "span": j.get("span", "")})
+            cj = {}
+            for q, g in closures.items():
+                c = json.loads(json.dumps(g.j).replace(json.dumps(p + "::{closure")[1:-1], json.dumps(np_ + "::{closure")[1:-1]))
+                c["path"] = np_ + q[len(p):]
+                if c.get("root") == p:
+                    c["root"] = np_
+                cj[c["path"]] = c
+            _fold_flag_constants(self, j, cj)
+            made[v] = (np_, j, cj)
+        # --- names: a copy that is what a vanished function of the confirmed tree was gets that function's name
+        crate = h.crate
+        parent = p.rsplit("::", 1)[0]
+        missing = [k for k in known[crate] if k not in self.fns and k.rsplit("::", 1)[0] == parent and not k.startswith("<")]
+        def sig_of(j):
+            return "(%s) -> %s" % (", ".join(j.get("inputs", [])), j.get("output", ""))
+        def callees_of(j, cj):
+            out = set()
+            for x in [j] + list(cj.values()):
+                for blk in x["blocks"]:
+                    t = blk["term"]
+                    if t["k"] == "call" and not blk["cleanup"]:
+                        out.add(t.get("decl") or t["callee"])
+            return out
+        scores = []
+        for v, (np_, j, cj) in made.items():
+            mine = callees_of(j, cj)
+            for k in missing:
+                if (sigs.get(crate) or {}).get(k) != sig_of(j):
+                    continue
+                theirs = set((finger.get(crate) or {}).get(k, []))
+                if not theirs:
+                    continue
+                scores.append((len(mine & theirs) / float(len(mine | theirs) or 1), v, k))
+        scores.sort(reverse=True)
+        taken_v, taken_k, rename = set(), set(), {}
+        for sc, v, k in scores:
+            if sc < 0.6 or v in taken_v or k in taken_k:
+                continue
+            # unambiguous: no other pairing of this copy or this name scores the same
+            if any(abs(sc2 - sc) < 1e-9 and ((v2 == v) != (k2 == k)) for sc2, v2, k2 in scores):
+                continue
+            rename[v] = k
+            taken_v.add(v)
+            taken_k.add(k)
+        for v, (np_, j, cj) in made.items():
+            final = rename.get(v, np_)
+            txt_from, txt_to = json.dumps(np_)[1:-1], json.dumps(final)[1:-1]
+            def ren(x):
+                return json.loads(json.dumps(x).replace(txt_from + "::{closure", txt_to + "::{closure")) if final != np_ else x
+            j = ren(j)
+            j["path"] = final
+            self.fns[final] = Fn(j, crate)
+            for cp, c in cj.items():
+                c = ren(c)
+                c["path"] = final + cp[len(np_):]
+                if c.get("root") == np_:
+                    c["root"] = final
+                self.fns[c["path"]] = Fn(c, crate)
+            made[v] = (final, j, cj)
+            if final != np_:
+                self.renamed[np_] = final
+        # --- call sites
+        touched = {}
+        for (q, f, bi), v in zip(sites, vals):
+            jq = touched.get(q)
+            if jq is None:
+                jq = touched[q] = json.loads(json.dumps(self.fns[q].j))
+            t = jq["blocks"][bi]["term"]
+            t["callee"] = made[v][0]
+            t["decl"] = made[v][0]
+            t["args"] = t["args"][:i - 1] + t["args"][i:]
+            if "arg_tys" in t:
+                t["arg_tys"] = t["arg_tys"][:i - 1] + t["arg_tys"][i:]
+        for q, jq in touched.items():
+            old = self.fns[q]
+            nf = Fn(jq, old.crate)
+            for attr in ("inlined", "inlined_paths"):
+                if hasattr(old, attr):
+                    setattr(nf, attr, getattr(old, attr))
+            self.fns[q] = nf
+        # the merged original is gone
+        for q in [p] + list(closures):
+            self.absorbed[q] = self.fns.pop(q)
 
     def _hoist_into_conversions(self, known):
         """`fn f(x: impl Into<X>) { let x = x.into(); .. }` called with a payload type T is `f(X::from(payload))`: the
@@ -2494,6 +2665,116 @@ def inline_calls(facts, fn, should_inline, depth=2):
                 x.inlined_paths = set(getattr(x, "inlined_paths", set())) | nf.inlined_paths
         return nf3
     return nf
+
+
+def fn_defs_whole(fn, local):
+    return [d for d in fn.defs(local) if d[1] == "term" or not d[2].get("lhs", {}).get("p")]
+
+
+def _fold_flag_constants(facts, j, closures):
+    """Constant folding of a flag inside a specialised copy: values of bool / field-less-enum locals (also behind shared
+    references and through closure captures) are propagated to discriminant reads and switches; decided switches become
+    gotos and the blocks that are left unreachable are emptied."""
+    def run(x, capt):
+        defs = defaultdict(list)
+        for bi, blk in enumerate(x["blocks"]):
+            for st in blk["stmts"]:
+                if st["k"] == "assign" and not st["lhs"]["p"]:
+                    defs[st["lhs"]["l"]].append(st)
+                elif st["k"] == "assign":
+                    defs[st["lhs"]["l"]].append(None)
+            t = blk["term"]
+            if t["k"] == "call" and "dest" in t:
+                defs[t["dest"]["l"]].append(None)
+        val = {}
+
+        def of_place(pl):
+            l, pth = pl["l"], list(pl["p"])
+            if l == 1 and capt and pth and (pth[0] in capt or (pth[0] == "*" and len(pth) > 1 and pth[1] in capt)):
+                k = 1 if pth[0] in capt else 2
+                v, rest = capt[pth[k - 1]], pth[k:]
+            elif l in val:
+                v, rest = val[l], pth
+            else:
+                return None
+            for e in rest:
+                if e == "*" and isinstance(v, tuple) and v[0] == "R":
+                    v = v[1]
+                else:
+                    return None
+            return v
+        changed = True
+        while changed:
+            changed = False
+            for l, ds in defs.items():
+                if l in val or len(ds) != 1 or ds[0] is None:
+                    continue
+                rv = ds[0]["rv"]
+                v = None
+                if rv["k"] == "use" and rv["op"]["k"] == "const" and rv["op"].get("ty") == "bool" and "v" in rv["op"]:
+                    v = ("B", int(rv["op"]["v"]))
+                elif rv["k"] == "use" and rv["op"]["k"] in ("copy", "move"):
+                    v = of_place(rv["op"])
+                elif rv["k"] == "agg" and rv.get("adt") and not rv.get("ops") and facts._is_flag_enum(rv["adt"]):
+                    v = ("E", rv["adt"], rv["variant"])
+                elif rv["k"] == "ref" and not rv.get("mut"):
+                    inner = of_place(rv["place"])
+                    v = ("R", inner) if inner is not None else None
+                elif rv["k"] == "discr":
+                    inner = of_place(rv["place"])
+                    if isinstance(inner, tuple) and inner[0] == "E":
+                        for idx, name in rv.get("variants", []):
+                            if name == inner[2]:
+                                v = ("I", idx)
+                elif rv["k"] == "unop" and rv.get("op") == "Not" and rv["a"]["k"] in ("copy", "move"):
+                    inner = of_place(rv["a"])
+                    if isinstance(inner, tuple) and inner[0] == "B":
+                        v = ("B", 1 - inner[1])
+                if v is not None:
+                    val[l] = v
+                    changed = True
+        # captured constants of the closures built here
+        caps = {}
+        for blk in x["blocks"]:
+            for st in blk["stmts"]:
+                if st["k"] == "assign" and st["rv"]["k"] == "agg" and st["rv"].get("closure") in closures:
+                    m = {}
+                    for nme, op in zip(st["rv"].get("fields", []), st["rv"]["ops"]):
+                        v = of_place(op) if op["k"] in ("copy", "move") else None
+                        if v is not None:
+                            m["." + str(nme)] = v
+                    if m:
+                        caps[st["rv"]["closure"]] = m
+        # decided switches
+        for blk in x["blocks"]:
+            t = blk["term"]
+            if t["k"] == "switch" and t["discr"]["k"] in ("copy", "move"):
+                v = of_place(t["discr"])
+                if isinstance(v, tuple) and v[0] in ("B", "I"):
+                    tgt = [d for k, d in t["targets"] if k == v[1]]
+                    blk["term"] = {"k": "goto", "target": tgt[0] if tgt else t["otherwise"], "span": t.get("span", "")}
+        # unreachable blocks
+        seen, work = set(), [0]
+        while work:
+            b = work.pop()
+            if b in seen:
+                continue
+            seen.add(b)
+            t = x["blocks"][b]["term"]
+            for key in ("target", "otherwise", "unwind", "drop"):
+                if isinstance(t.get(key), int):
+                    work.append(t[key])
+            if t["k"] == "switch":
+                work.extend(d for _, d in t["targets"])
+        for b, blk in enumerate(x["blocks"]):
+            if b not in seen:
+                blk["stmts"] = []
+                blk["term"] = {"k": "unreachable", "span": ""}
+        return caps
+    caps = run(j, None)
+    for cp, m in caps.items():
+        if cp in closures:
+            run(closures[cp], m)
 
 
 def _places(x, out, skip=()):
